@@ -87,7 +87,7 @@ def integrate(
             delta += stencil[jj - jstart] * signal[ii + jj]
 
         integrated_signal[ii] = integrated_signal[ii - 1] + delta * curr_dt
-        prev_dt = curr_dt
+        prev_dt = future_dt
 
     return integrated_signal
 
